@@ -1,5 +1,6 @@
 (* C15 property theorems.  Only statements closed by [exact]; each followed by Print Assumptions. *)
 From Miller Require Import Base.Bytes C15.Model C15.Proofs C15.Utf8Proofs.
+From Miller Require C01.ModelJson C01.ProofsJson.
 Open Scope char_scope.
 Open Scope Z_scope.
 
@@ -83,6 +84,13 @@ Print Assumptions C15_gssub_no_match.
 Theorem C15_gssub_same_is_identity : forall s pat, gssub s pat pat = s.
 Proof. exact gssub_same. Qed.
 Print Assumptions C15_gssub_same_is_identity.
+
+(* json_stringify of a string (millerJSONEncodeString, model shared with C01 and tied to json_stringify by this
+   property's correspondence) is read back to the same bytes by an RFC 8259 string decoder: all byte strings *)
+Theorem C15_json_stringify_decodes :
+  forall s, C01.ProofsJson.ref_decode_string (C01.ModelJson.json_string s) = Some s.
+Proof. exact C01.ProofsJson.json_string_decodes. Qed.
+Print Assumptions C15_json_stringify_decodes.
 
 Example C15_nonvacuous :
   strlen (bs [104; 195; 169; 255; 226; 130]%N) = 5
